@@ -2,8 +2,8 @@ import Sourcer.Gen
 /-
   MODEL of the `_run` epilogue and `_finalize_parse_info`: the three outcomes of `parse`, and the
   conversion of raw spans `(start_pos, _pos)` to `(start, end)` with `end = max(_pos - 1, start)`,
-  looked up in line/column tables that have `len + 1` entries (a lookup beyond them is Python's
-  IndexError, kept as an explicit outcome).
+  looked up in line/column tables that have `max len pos + 1` entries, `pos` being where the parse
+  ended (a lookup beyond them is Python's IndexError, kept as an explicit outcome).
 -/
 namespace Sourcer
 
@@ -55,7 +55,8 @@ end
 /-- what `parse(text, pos, fullparse)` does with the registers the entry rule left -/
 def parseApi (len : Nat) (fullparse : Bool) (r : Reg) : Outcome :=
   if r.status then
-    match finalize len r.result with
+    -- the tables are extended as far as the parse went (a parse may start beyond the end of the text)
+    match finalize (max len r.pos) r.result with
     | none => .indexError
     | some v => if fullparse && decide (r.pos < len) then .partialParse v r.pos else .value v
   else .parseError r.pos
